@@ -257,6 +257,10 @@ impl Model {
                 if self.row_visible(tx, r) {
                     continue;
                 }
+                // a row that carries a delete mark of anybody who has not aborted does not hold its key
+                if r.deleters.iter().any(|d| self.txs[*d].status != TxStatus::Aborted) {
+                    continue;
+                }
                 for v in &r.versions {
                     if self.concurrent(tx, v.writer) && u.cols.iter().map(|c| &v.vals[*c]).collect::<Vec<_>>() == key {
                         return true;
@@ -451,8 +455,9 @@ impl Model {
                         return Expect::Fail("unique");
                     }
                     if self.unique_hazard(tx, ti, r) {
-                        self.hazards.push(format!("insert into {table} collides with a concurrent transaction's key"));
-                        return Expect::Any;
+                        // the key is held by a transaction that is still open or committed after we began:
+                        // the engine refuses the row with a write-write conflict (no wait)
+                        return Expect::Fail("write conflict");
                     }
                     accepted.push(r.clone());
                 }
